@@ -69,6 +69,20 @@ Lemma time_differences_ok :
   src_SubTSOPhysicalByWallClock = "{ return after.UnixNano()/int64(time.Millisecond) - before.UnixNano()/int64(time.Millisecond) }".
 Proof. split; reflexivity. Qed.
 
+(* where an allocator's window lives - the persisted layout members of different releases must agree on: the key
+   "timestamp" below the allocator's path, which is the root path for the Global allocator and <root>/<dc-location> for a
+   Local one; a Local allocator is initialised by SyncTimestamp alone (no other source of a starting point) *)
+Lemma window_layout_ok :
+  src_getTimestampPath = "{ return path.Join(t.rootPath, timestampKey) }" /\
+  src_getAllocatorPath = "{ if dcLocation == GlobalDCLocation { return am.rootPath } return path.Join(am.rootPath, dcLocation) }" /\
+  skel_lta_Initialize = [Assign "lta.timestampOracle.suffix" "= suffix"; Call "SyncTimestamp"; Ret].
+Proof. repeat split; reflexivity. Qed.
+
+(* the window key is named by the oracle alone (its path helper and the prefix scan of loadTimestamp) *)
+Lemma timestamp_key_sites_ok :
+  timestamp_key_sites = ["server/tso/tso.go:<top>"; "server/tso/tso.go:getTimestampPath"; "server/tso/tso.go:loadTimestamp"].
+Proof. reflexivity. Qed.
+
 Lemma skel_updateAllocator_ok : skel_updateAllocator =
   [SwitchE [[Call "Reset"; Ret]; []]; Call "Check"; IfE "!ag.leadership.Check()" [Ret] []; Call "UpdateTSO"; IfE "err != nil" [Call "ResetAllocatorGroup"; Ret] []].
 Proof. reflexivity. Qed.
